@@ -3,6 +3,7 @@ package main
 import (
 	"fmt"
 	"go/token"
+	"go/types"
 	"sort"
 	"strings"
 
@@ -420,6 +421,46 @@ func runC02(r *Run) {
 		}
 		r.check(found && okAll, "CheckConstraint:custom-name-lookup", r.pos(exec[0].Instr), "the custom constraint is selected by a case-insensitive comparison of names",
 			"custom constraints are looked up by exact name although the pattern — and the constraint name in it — is lower-cased at registration unless CaseSensitive is set: a constraint registered as \"isAdmin\" is never found, the parameter falls back to `no constraint` and every value is accepted")
+	})
+
+	r.rule("R3d", "a value that does not parse is rejected: in CheckConstraint the error of every parse of the parameter value is consumed (it reaches a branch or the result) — an error assigned to a shadowed variable is lost (E1, error discipline)", func() {
+		f := r.Fn("", "(*Constraint).CheckConstraint")
+		var param ssa.Value
+		for _, p := range f.Params {
+			if p.Name() == "param" {
+				param = p
+			}
+		}
+		r.need(param != nil, "CheckConstraint(param string)")
+		n := 0
+		for _, c := range callsIn(f, false) {
+			if c.Value() == nil {
+				continue
+			}
+			tup, ok := c.Value().Type().(*types.Tuple)
+			if !ok || tup.Len() < 2 || tup.At(tup.Len()-1).Type().String() != "error" {
+				continue
+			}
+			takesParam := false
+			for _, a := range c.Common.Args {
+				if flowsUnchanged(a, param) {
+					takesParam = true
+				}
+			}
+			if !takesParam {
+				continue
+			}
+			n++
+			used := false
+			for _, ref := range *c.Value().Referrers() {
+				if ex, ok := ref.(*ssa.Extract); ok && ex.Index == tup.Len()-1 && len(*ex.Referrers()) > 0 {
+					used = true
+				}
+			}
+			r.check(used, fmt.Sprintf("CheckConstraint:%s#%d:error-consumed", short(c.Name), n), r.pos(c.Instr), "the parse error is read",
+				"the error of "+short(c.Name)+"(param) is never read (assigned to a shadowed or dead variable): a value that is no number counts as 0 (or as the overflow bound) and passes the constraint")
+		}
+		r.atLeast("parses of the parameter value", n, 5)
 	})
 
 	r.rule("R3c", "the catch-all shortcuts are decided on the pattern as written: Route.star / Route.root do not depend on the pattern with its escape characters removed (E3)", func() {
